@@ -16,6 +16,7 @@
 //! construction); the proved part is the id allocator (Props/C01.v).
 use radix_common::prelude::*;
 use radix_engine::transaction::*;
+use radix_engine::vm::wasm::DefaultWasmEngine;
 use radix_engine::vm::*;
 use radix_transactions::model::ExecutableTransaction;
 use serde_json::json;
@@ -152,7 +153,7 @@ fn main() {
             Ok(r) => {
                 report.count(&format!("outcome_{}", outcome_class(&r)));
                 let nontrivial = matches!(&r.result, TransactionResult::Commit(c) if !c.state_updates.by_node.is_empty());
-                report.case(&hex(&reference[..reference.len().min(64)]), nontrivial);
+                report.case(&hex(&reference), nontrivial);
             }
             Err(p) => report.oracle_failure(i, "", &format!("engine panicked on commit: {}", p.chars().take(300).collect::<String>()), json!({"index": i})),
         }
